@@ -22,7 +22,8 @@ NAME_POOL = [
     "f.c", "Makefile", "src/a.c", "src/b.h", "src/util/x.c", "docs/readme.txt",
     "lib/deep/er/z.py", ".hidden", "weird.name.tar.gz", "src/util/y.c", "include/api.h", "docs/notes",
 ]
-SPECIAL_NAMES = ["dir with space/file name.txt", "tab\there.txt", "quo\"te.c", "back\\slash.h", "h\xc3\xa9.txt"]
+SPECIAL_NAMES = ["dir with space/file name.txt", "tab\there.txt", "quo\"te.c", "back\\slash.h", "h\xc3\xa9.txt",
+                 "raw.\udcff", "d\udcfe/x.\udcff\udcfe", "vt\x0bin.txt"]   # bytes that are not UTF-8 (surrogateescape), a vertical tab
 
 VOCAB = [b"a\n", b"b\n", b"c\n", b"{\n", b"}\n", b"\n", b"    return 0;\n", b"int x = 1;\n", b"/* comment */\n",
          b"-- x\n", b"++ y\n", b"@@ -1 +1 @@\n", b"\\ No newline at end of file\n", b"diff --git a b\n", b"--- a/f\n", b"+++ b/f\n"]
